@@ -2,6 +2,7 @@ from propdefs.common import *
 
 PROP = {
     "bin": "c17",
+    "minimize": True,   # harness implements `--only i --keep p0,p1,..` (notes/minimisation.md)
     "coq_targets": ["theories/Flow/C17Check"],
     "n": {"quick": 480, "thorough": 12000},
     "theorems": ["spo_sound", "spo_unknown", "spo_completes"],
